@@ -1,6 +1,6 @@
 (* C09 - a legal input configuration satisfies the generated system. *)
 From Coq Require Import Reals List Bool String Sorted Permutation.
-From FrameModel Require Import Num.QcTac Legal.Syntax Legal.Build Legal.Sem Legal.LegalFacts Legal.Legal Legal.LegalIff.
+From FrameModel Require Import Num.QcTac Legal.Syntax Legal.Build Legal.Sem Legal.LegalFacts Legal.Legal Legal.LegalIff Legal.Roles.
 From Coq Require Import Lia Lra Psatz.
 Import ListNotations.
 Open Scope R_scope.
@@ -189,4 +189,14 @@ Proof.
     { intro Hf. unfold InPlace, near, X, Y, input_env, box_of. rewrite HM. simpl. lra. }
   - intros m n M N Hmn HM HN i j Hi Hj. unfold NoOverlap.
     destruct (HInter m n M N Hmn HM HN i j Hi Hj); [left | right; left]; lra.
+Qed.
+
+(* the form of DESIGN.md, Appendix B: for every netlist of single-trunk orthogons *)
+Corollary legal_iff_stog nl dw dh r eps v : stog_netlist nl ->
+  exists eqs, build nl dw dh r = Some eqs /\
+  (Forall (met eps v) eqs <->
+   Legal v (eps + met_tol) (Qc2R (tau_of dw dh (List.length nl))) (Qc2R dw) (Qc2R dh) (Qc2R r) nl).
+Proof.
+  intro H. destruct (stog_netlist_builds nl dw dh r H) as [eqs E]. exists eqs. split; [exact E|].
+  now apply legal_iff.
 Qed.
